@@ -365,9 +365,38 @@ Definition run_c19_load (args : list sx) : sx :=
            {| s_flag := negb (flag =? 0); s_mode := mode; s_codecs := codecs; s_cases := cases |}))
   | _ => None end).
 
+(* ---------- fifth wave: a HISTORY of requests through one reference client process ---------- *)
+(* referenceclient/client.go run -> invoke: the process reads ClientCompatRequests one after the other and builds
+   the options of each RPC from THAT request (`if req.MessageReceiveLimit > 0 { WithReadMaxBytes(limit) }`); nothing
+   of an earlier request is kept.  A request here = (limit, size of the response message in the codec's encoding);
+   limit 0 = none asked for.  `client_process` is the loop with the history explicit (`seen` = the requests served
+   so far, most recent first): handed on, never consulted - which is what client_limit_is_per_request states. *)
+Definition client_request_accepts (codec : Z) (r : Z * Z) : bool :=
+  chain_accepts (client_readers codec (fst r)) [snd r].
+Fixpoint client_process (codec : Z) (seen reqs : list (Z * Z)) : list bool :=
+  match reqs with
+  | [] => []
+  | r :: rest => client_request_accepts codec r :: client_process codec (r :: seen) rest
+  end.
+Definition client_seq_outcomes (codec : Z) (reqs : list (Z * Z)) : list bool := client_process codec [] reqs.
+
+(* ("c19.client_seq" id ((limit off streamType)...) httpVersion protocol compression codec): the requests in order
+   through one client process, request i answered with a message of limit_i + off_i bytes.
+   Result: ((limit size accepted)...) *)
+Definition un_creq (s : sx) : option (Z * Z) :=
+  match s with L [I limit; I off; I _] => Some (limit, limit + off) | _ => None end.
+Definition run_c19_client_seq (args : list sx) : sx :=
+  or_bad (match args with
+  | [reqs; I _; I _; I _; I codec] =>
+    do reqs <- un_listof un_creq reqs;
+    ret (L (map (fun rb : (Z * Z) * bool => L [I (fst (fst rb)); I (snd (fst rb)); sx_bool (snd rb)])
+               (combine reqs (client_seq_outcomes codec reqs))))
+  | _ => None end).
+
 Definition c19_table : list (bytes * (list sx -> sx)) :=
   [ (bs "c19.expand", run_c19_expand);
     (bs "c19.sharp", run_c19_sharp);
     (bs "c19.wiring", run_c19_wiring);
     (bs "c19.stream", run_c19_stream);
-    (bs "c19.load", run_c19_load) ].
+    (bs "c19.load", run_c19_load);
+    (bs "c19.client_seq", run_c19_client_seq) ].
